@@ -59,10 +59,16 @@ def gen_fmt(rng, fields, has_enum, allow_hidden=True):
         visible = 0
         for f in names:
             c = f
+            mod = None
             if f == "status" and has_enum and rng.random() < 0.7:
-                c += "/" + rng.choice(["val", "name", "full"])
+                mod = rng.choice(["val", "name", "full"])
+                c += "/" + mod
             if rng.random() < 0.25:
                 c += "!"
+                if rng.random() < 0.12:
+                    # other spellings of the same description, which a more tolerant parser may come to accept
+                    # (rejected today: the run is then skipped as an input matter)
+                    c = rng.choice([f"{f}!/{mod}" if mod else f"{f} !", f"{f} ! " if not mod else f"{f} / {mod} !"])
             r = rng.random()
             if r < 0.25:
                 c += f":{rng.randint(0, 14)}"
